@@ -186,6 +186,10 @@ def execute(case):
                 rx = nfc.llcp.Socket(llc, nfc.llcp.LOGICAL_DATA_LINK)
                 rx.bind(RX_SAP)
                 socks[side] = rx
+                # a socket that exists before the link is up and is bound
+                # only when it is first used
+                socks[(side, "early")] = nfc.llcp.Socket(
+                    llc, nfc.llcp.LOGICAL_DATA_LINK)
                 for k, e in enumerate(conns):
                     if other(e["client"]) != side:
                         continue
@@ -227,7 +231,11 @@ def execute(case):
         def sender(side, llc):
             def fn():
                 peer_miu = eff(case, other(side), "miu")
-                tx = nfc.llcp.Socket(llc, nfc.llcp.LOGICAL_DATA_LINK)
+                # (every other case sends from the socket made at startup)
+                if case.get("seed", 0) & 1 and (side, "early") in socks:
+                    tx = socks[(side, "early")]
+                else:
+                    tx = nfc.llcp.Socket(llc, nfc.llcp.LOGICAL_DATA_LINK)
                 # several small datagrams pending at once: with aggregation
                 # they travel in one AGF PDU that must respect the peer's MIU
                 for n in burst_sizes(case, side, peer_miu):
@@ -689,6 +697,22 @@ def judge(case, ctx):
                 ctx.nontrivial()
         if o["snep"]:
             ctx.label("snep-put-ok")
+        # the sending limit of a datagram socket IS the peer's receive MIU:
+        # a datagram of that size is taken, one octet more is refused
+        import errno as _errno
+        for side in ("i", "t"):
+            peer_miu = eff(case, other(side), "miu")
+            for n, res in o["ui"][side]:
+                if res == "E%d" % _errno.EMSGSIZE and n <= peer_miu:
+                    flag(ctx, base, Violation(
+                        "send-limit-below-announced-miu", "%s: sendto() of "
+                        "%d octets refused with EMSGSIZE, the peer announced "
+                        "a receive MIU of %d" % (side, n, peer_miu)))
+                if res is True and n > peer_miu:
+                    flag(ctx, base, Violation(
+                        "send-limit-above-announced-miu", "%s: sendto() of "
+                        "%d octets accepted, the peer announced a receive "
+                        "MIU of %d" % (side, n, peer_miu)))
         if not o["traffic_done"]:
             ctx.label("traffic-unfinished")
         for n in sorted(set(o["notes"])):
